@@ -139,6 +139,7 @@ fn gen_valid(cx: &mut Case) -> Result<Valid, String> {
     let g = gen_unit_program(cx, false, false);
     let typed = type_check(&g.prog, true).map_err(|e| harness_error(format!("generated IR rejected: {:?}", e)))?;
     let mut vb = ValBuilder::new();
+    vb.constructors_only = true; // witness values by plain constructors: the value decoders are not this check's subject (C10) and must not make the harness inconsistent
     vb.allow_machine = false;
     let mut s = cx.src.clone();
     let wit = gen_witnesses(&g.prog, &typed, &mut s, &mut vb);
